@@ -158,9 +158,25 @@ fn layout_shape_ok(src: &Src, ty: &str) -> Result<(), String> {
     Ok(())
 }
 
+/// The layout/writer agreement of the escape module under another property's name: the unparser renders string and
+/// bytes constants through `UnicodeEscape` / `AsciiEscape`, so a wrong announced length (fast path taken although a
+/// character needs escaping) makes the rendering re-lex to another constant (C11).
+pub fn escape_layout_rules(cx: &mut Ctx, prefix: &str) {
+    let esc = match sm::load(&cx.repo, "literal/src/escape.rs") {
+        Ok(s) => s,
+        Err(e) => return cx.anchor_missing(prefix, &e),
+    };
+    layout_writer_as(cx, &esc, "UnicodeEscape", 0x10FFFF, prefix);
+    layout_writer_as(cx, &esc, "AsciiEscape", 0xFF, prefix);
+}
+
 fn layout_writer(cx: &mut Ctx, esc: &Src, ty: &str, max: u32) {
-    let a1 = format!("C16.A1/{}", ty);
-    let a2 = format!("C16.A2/{}", ty);
+    layout_writer_as(cx, esc, ty, max, "C16")
+}
+
+fn layout_writer_as(cx: &mut Ctx, esc: &Src, ty: &str, max: u32, prefix: &str) {
+    let a1 = format!("{}.A1/{}", prefix, ty);
+    let a2 = format!("{}.A2/{}", prefix, ty);
     cx.rule(&a1, "layout/writer agreement by partition: the scalar-value space is split at every constant either function compares against (and at the UTF-8 length thresholds), crossed with the opaque predicate is_printable and both quote choices; on every cell the length the layout pre-pass adds for a character equals the number of bytes write_char emits for it");
     cx.rule(&a2, "fast-path soundness: on every cell the emitted length is >= the character's own length, with equality exactly when write_char emits the character verbatim — so `announced length == source length` holds iff nothing needs escaping (for AsciiEscape the verbatim cells are printable ASCII, which also discharges from_utf8_unchecked)");
     cx.floor(&a1, 40);
